@@ -113,6 +113,7 @@ type Path struct {
 	stepBudget  int64
 
 	race       *raceRec
+	goQueue    []queuedGo // goroutines of a fork-join function, spawned and not yet run
 	lazyInit   map[*ssa.Package]bool // dependency packages whose initialiser was run on demand on this path
 	forceExec  *ssa.Function         // a package initialiser that is executed although initialisers are skipped by default
 	knownPreds []knownPred
